@@ -3,8 +3,8 @@
 P=$1; PATCH=$2; TIER=${3:-quick}
 exec 9>/tmp/seedcheck.lock; flock 9
 cd /repo && git diff --quiet || { echo "/repo dirty"; exit 3; }
-git -C /repo apply "$PATCH" 2>/dev/null || { git -C /repo apply --3way "$PATCH" >/dev/null 2>&1 && git -C /repo reset -q; } || { git -C /repo checkout -- . ; echo "patch does not apply"; exit 3; }
-if grep -rq "^<<<<<<< " /repo/store /repo/memcache /repo/gobeansdb 2>/dev/null; then git -C /repo checkout -- . ; echo "patch conflicts"; exit 3; fi
+git -C /repo apply "$PATCH" 2>/dev/null || { git -C /repo apply --3way "$PATCH" >/dev/null 2>&1 && git -C /repo reset -q; } || { git -C /repo reset -q --hard HEAD; echo "patch does not apply (conflicts with later hook or fix commits)"; exit 3; }
+if grep -rq "^<<<<<<< " /repo/store /repo/memcache /repo/gobeansdb 2>/dev/null; then git -C /repo reset -q --hard HEAD; echo "patch conflicts"; exit 3; fi
 cd /verif && ./check $P --tier $TIER > /tmp/seedcheck_$P.log 2>&1; RC=$?
 git -C /repo checkout -- . ; git -C /repo clean -fdq
 echo "check $P rc=$RC"; grep -E "VIOLATION|KNOWN-FINDING|MACHINERY|^OK" /tmp/seedcheck_$P.log | head -5
